@@ -100,10 +100,27 @@ theorem act_starts_ordered : ∀ o ∈ performOccs env play rp fuel, ∀ o' ∈ 
   have h3 := ((perform_step env play rp fuel).occs_bnd o' ho').2.2
   simp only [actStartOf]; rw [h2, h3]; exact h1
 
-/-- **Distinct lines run concurrently**: within a scene started at `t`, the records of line `ln` are
-exactly those of that line run alone from `t`, and they depend on the environment only through the
-decisions for that very line — not on how long the other lines take or whether they fail. -/
+/-- **Distinct lines run concurrently**: within a scene started at `t` in which no line fails, the records of line
+`ln` are exactly those of that line run alone from `t`, and they depend on the environment only through the decisions
+for that very line — not on how long the other lines take.
+
+(The hypothesis is what the real prompter needs: when a line fails, `runScene` cancels the other lines of the scene half
+a second later — an action in flight is killed and recorded as failed, no further action of those lines starts.  That
+abort is timing, the model has none of it: `runScene` runs every line to its end, so for the model the equation holds
+without the hypothesis too — `concurrent_lines_independent_model` below.  What the aborted lines record is checked on
+real plays, C04 / C05 "abort plays".) -/
 theorem concurrent_lines_independent (env' : Env) (ao a sc t : Nat) (lines : List Line) (ln : Nat) (l : Line)
+    (hl : lines[ln]? = some l)
+    (_hok : (runScene env ao a sc t 0 lines).2.2 = true)
+    (henv : ∀ k, env.occ ⟨ao, a, sc, ln, k⟩ = env'.occ ⟨ao, a, sc, ln, k⟩) :
+    (runScene env ao a sc t 0 lines).1.filter (fun r => r.pos.line == ln) =
+      (runLine env' ao a sc ln l.actor 0 t l.steps).1 := by
+  have := runScene_filter env ao a sc t 0 lines ln l hl
+  simp only [Nat.zero_add] at this
+  rw [this, runLine_congr env env' ao a sc ln l.actor henv]
+
+/-- the same equation for every scene of the *model* (which does not abort the other lines of a failing scene) -/
+theorem concurrent_lines_independent_model (env' : Env) (ao a sc t : Nat) (lines : List Line) (ln : Nat) (l : Line)
     (hl : lines[ln]? = some l)
     (henv : ∀ k, env.occ ⟨ao, a, sc, ln, k⟩ = env'.occ ⟨ao, a, sc, ln, k⟩) :
     (runScene env ao a sc t 0 lines).1.filter (fun r => r.pos.line == ln) =
